@@ -263,11 +263,38 @@ def parse_obs(text):
     return res
 
 
+class HarnessCrash(RuntimeError):
+    """the harness process died or hung: the implementation aborted (OOM, stack overflow, abort) or never returned"""
+    def __init__(self, stream, how, case_text, tail):
+        RuntimeError.__init__(self, "harness %s on stream %s" % (how, stream))
+        self.stream, self.how, self.case_text, self.tail = stream, how, case_text, tail
+
+
+def last_case_of(outdir):
+    """the last (unfinished) case the harness wrote before it died"""
+    try:
+        txt = open(os.path.join(outdir, "cases.txt")).read()
+    except OSError:
+        return ""
+    i = txt.rfind("\ncase ")
+    return txt[i + 1:] if i >= 0 else txt
+
+
 def run_impl(stream, mode_args, outdir, release=False):
     os.makedirs(outdir, exist_ok=True)
-    rc, out = sh([pgh_bin(release), stream] + mode_args + [outdir], timeout=3000)
+    for f in ("cases.txt", "impl.obs"):
+        try:
+            os.remove(os.path.join(outdir, f))
+        except OSError:
+            pass
+    try:
+        # 4 GB address space and 15 minutes per shard: a runaway iterator is an observation, not a reason to stall
+        rc, out = sh("ulimit -v 6000000; exec %s %s %s %s" % (pgh_bin(release), stream, " ".join(mode_args), outdir), timeout=900)
+    except subprocess.TimeoutExpired:
+        raise HarnessCrash(stream, "did not finish within 900 s (an operation never returned)", last_case_of(outdir), "")
     if rc != 0:
-        raise RuntimeError("harness failed: " + out[-2000:])
+        raise HarnessCrash(stream, "died with exit status %d (abort, out of memory or stack overflow inside the crate)" % rc,
+                           last_case_of(outdir), out[-1500:])
     return (open(os.path.join(outdir, "cases.txt")).read(),
             open(os.path.join(outdir, "impl.obs")).read(),
             json.load(open(os.path.join(outdir, "stats.json"))))
@@ -469,6 +496,15 @@ def run_check(prop, plugin, tier, seed, replay=None):
                     if tier == "thorough" and getattr(plugin, "ORACLE_ONLY_N", 0):
                         c, i, st = run_impl(stream, ["gen", str(seed + 104729), str(plugin.ORACLE_ONLY_N)], outdir)
                         process(stream, c, i, None, "oracle-only:" + stream)
+        except HarnessCrash as e:
+            path = write_replay(prop, "%s-implementation-aborts-or-hangs.json" % prop,
+                                {"property": prop, "kind": "property-fails-on-implementation",
+                                 "failure": {"class": "implementation-aborts-or-hangs", "how": e.how},
+                                 "stream": e.stream, "detail": str(e),
+                                 "case": e.case_text[:20000],
+                                 "note": "the last case of the list is the one that was running; an unfinished case has no 'end' line",
+                                 "stderr_tail": e.tail})
+            violations.append((path, False))
         except RuntimeError as e:
             path = write_replay(prop, "%s-run-failure.json" % prop,
                                 {"property": prop, "kind": "correspondence-cannot-run", "detail": str(e)})
